@@ -5,6 +5,7 @@ import (
 	"fmt"
 	"os"
 	"regexp"
+	"strings"
 	"testing"
 )
 
@@ -117,12 +118,44 @@ func witnesses() []wit {
 		ws = append(ws, wit{"word-lost-before-nested-float", "inside a float (or absolutely positioned box) with an explicit width, a line made too long by a nowrap run is followed by a word and a nested float that does not fit: the word before the nested float (weqA) is laid out on no line; the same content in a normal block, an inline-block or a table cell keeps it",
 			Input{HTML: html, Flows: []Flow{{ID: "", Kind: "main"}, {ID: "f2", Kind: "float", Text: frag(a + b)}, {ID: "f3", Parent: "f2", Kind: "float", Text: "wfq", Prev: "weq", Next: "wlq"}}, Mode: "witness"}})
 	}
+	// --- wider domain: page-based generated content (second pagination pass), ::first-letter ---
+	{
+		head := `<style>@page{size:100px 10px;margin:0}html{margin:0;padding:0}body{font-family:ahem;font-size:10px;line-height:1;margin:0;orphans:1;widows:1;word-break:break-all}p{margin:0}` +
+			`#e1::before{content:"~*" target-counter("#k1", page, lower-roman) "(]" counter(page, upper-alpha) "~"}</style>`
+		a := `<p>w1qA <span id="e1"></span> w2qA</p><p>w3qA</p><p id="k1">w4qA</p>`
+		html := head + `<body>` + a + `</body>`
+		ws = append(ws, wit{"generated-content-split-stale", "a ::before text with two page-based counters (a forward target-counter and counter(page)) is cut by a page break; the counters are resolved in two steps, the first page is made again after each, and the next page - whose starting offset inside the text box did not change - is reused although it was laid out with the previous text: the pieces on the two pages do not add up (one character of the generated text is on no page)",
+			Input{HTML: html, Flows: []Flow{{ID: "", Kind: "main", Text: frag(a)}},
+				Generated: []GenContent{{Owner: "e1", Pseudo: "before", Parts: []GenPart{{Kind: "lit", Lit: "~*"}, {Kind: "tpage", Style: "lower-roman", Target: "k1"}, {Kind: "lit", Lit: "(]"}, {Kind: "page", Style: "upper-alpha"}, {Kind: "lit", Lit: "~"}}}}, Mode: "witness"}})
+	}
+	{
+		head := `<style>@page{size:100px 60px;margin:20px 0;@top-center{content:element(hd);font-family:ahem;font-size:8px}}html{margin:0;padding:0}body{font-family:ahem;font-size:10px;line-height:1;margin:0;orphans:1;widows:1}p{margin:0}` +
+			`#e1::before{content:counter(pages, lower-roman)}</style>`
+		a := `<p>w6qABCDEF w1qA <span id="e1"></span> w2q</p>`
+		b1 := `<p>w5q</p>`
+		b := `<p>w3q</p>`
+		html := head + `<body>` + a + `<div style="break-before:page">` + b1 + `<div id="r1" style="position:running(hd)">w9q</div>` + b + `</div></body>`
+		ws = append(ws, wit{"running-element-stale-after-repagination", "the first pagination pass lays the paragraph out on page 1 (two lines, provisional counter text \"0\") and registers the running element of the block that starts page 2; in the second pass (\"ii\", then \"iii\") the paragraph needs a third line, the block moves to page 3, and the registration for page 2 stays: the margin box of page 2 shows an element whose anchor is on page 3",
+			Input{HTML: html, Flows: []Flow{{ID: "", Kind: "main", Text: frag(a + b1 + b)}, {ID: "r1", Kind: "running", Text: "w9q", Prev: "w5q", Next: "w3q"}},
+				Generated: []GenContent{{Owner: "e1", Pseudo: "before", Parts: []GenPart{{Kind: "pages", Style: "lower-roman"}}}}, Mode: "witness"}})
+	}
+	{
+		head := `<style>@page{size:200px 100px;margin:0}html{margin:0;padding:0}body{font-family:ahem;font-size:10px;line-height:1.5;margin:0}p{margin:0}p::first-letter{color:#c00}</style>`
+		a := `<p>w1qAB w2qAB</p><p><span>w3qAB</span> w4q</p>`
+		html := head + `<body>` + a + `</body>`
+		ws = append(ws, wit{"first-letter-lost", "any ::first-letter style: firstLetterToBox removes the first letter from the text box and builds a box for it, but prepends that box to the children of the new letter text box instead of the line / inline box, so the letter is in no laid-out box (and is not drawn)",
+			Input{HTML: html, Flows: []Flow{{ID: "", Kind: "main", Text: frag(a)}}, Mode: "witness"}})
+	}
 	return ws
 }
 
-// C02_WITNESS=1 go test -tags "verif pC02" -run TestWitnesses ./props/c02/   (re)writes findings/C02/*.json
+// C02_WITNESS=1 [C02_WITNESS_ONLY=name,name] go test -tags "verif pC02" -run TestWitnesses ./props/c02/   (re)writes findings/C02/*.json
 func TestWitnesses(t *testing.T) {
+	only := os.Getenv("C02_WITNESS_ONLY") // comma-separated names: write these only
 	for _, w := range witnesses() {
+		if only != "" && !strings.Contains(","+only+",", ","+w.name+",") {
+			continue
+		}
 		raw, _ := json.Marshal(w.in)
 		res := Check(raw)
 		fmt.Printf("%-38s %s sig=%s\n    %s\n", w.name, res.Verdict, res.Sig, res.Msg)
